@@ -150,6 +150,7 @@ def evalB (x : Extra R) (σ : St R) : Expr → Bool
   | .bin .ge a b => x.le (eval x σ b) (eval x σ a)
   | .bin .eq a b => x.eqb (eval x σ a) (eval x σ b)
   | .bin .ne a b => !(x.eqb (eval x σ a) (eval x σ b))
+  | .sym n _ => !(x.eqb ((σ.sv.get n).getD (IntCast.intCast 0)) (IntCast.intCast 0))  -- a stored condition
   | _ => false  -- not a condition: excluded by the well-typedness check `wtE`
 
 def evalL (x : Extra R) (σ : St R) : List Expr → List R
@@ -240,7 +241,9 @@ def exec (x : Extra R) : Stmt → St R → Except Err (St R)
       match evalI σ.iv σ.ia v with
       | some k => .ok (σ.setIV n k)
       | none => .error (.badIndex n)
-    else if safeE σ v then .ok (σ.setSV n (eval x σ v)) else .error (.oob n)
+    else if safeE σ v then
+      .ok (σ.setSV n (if dt == .bool then b2r (evalB x σ v) else eval x σ v))
+    else .error (.oob n)
   | .adecl n dt sizes c vals, σ =>
     if dt == .int then .error (.unsupported "int array decl") else
     let total := sizes.foldr (· * ·) 1
